@@ -21,8 +21,9 @@ func init() {
 		Assumptions: []string{"Metastore.Store is an atomic insert-if-absent (C13 checks the request shapes, not the database)"},
 		Tech:        "static analysis: shared insert-only / store-result / ownership rules plus guarded-by-condition provenance of the unwrapping key",
 		NeedU1:      true,
+		NeedU2:      true,
 		Rules: []func(*Ctx){ruleC13InsertOnly, ruleC13NoOtherWrites, ruleC13NothingOnlyWhenAbsent, ruleC02FreshKeyOnlyIfStored, ruleC02SuccessIsStoreBool, ruleC02RecordMatchesKey, ruleC14LoserAdoptsStored,
-			ruleC14ParentReresolved, ruleC17ClientPerRegion, ruleC05PolicyDurationsVerbatim, deferredCloseSparesReturnedRule("C14", pkgApp, pkgInt), ruleC08EveryHandoutCounted, ruleC01LatestFetchedUnderOwnID, ruleC14LoadedRecordsNotModified, optionsCommuteRule("C14", pkgDynV1, pkgDynV2, pkgApp), ruleC04NewKeysStampedNow, ruleC01NoValidityGateOnRead, ruleC13ConsistentReads, ruleC13StoreResult},
+			ruleC14ParentReresolved, ruleC19OneSessionFactory, ruleC14StaticKeyIsStable, ruleC02CryptoKeyAsGiven, ruleC17ClientPerRegion, ruleC05PolicyDurationsVerbatim, deferredCloseSparesReturnedRule("C14", pkgApp, pkgInt), ruleC08EveryHandoutCounted, ruleC01LatestFetchedUnderOwnID, ruleC14LoadedRecordsNotModified, optionsCommuteRule("C14", pkgDynV1, pkgDynV2, pkgApp), ruleC04NewKeysStampedNow, ruleC01NoValidityGateOnRead, ruleC13ConsistentReads, ruleC13StoreResult},
 	})
 }
 
